@@ -391,7 +391,112 @@ func c13BusyRegistry(o *common.Out, id string, n, drop int) {
 	o.ImplOnly(id, abstract, true)
 }
 
+// c13AfterFailure: a discovery client with consistent-hash selection whose server set has grown by an update (the new
+// server sorts before the old ones); the mapping of 120 keys is recorded; one server goes down and the calls for its keys
+// fail with a connection error; the set has not changed: every other key is still served by the server it was served by
+// before.  Oracle only.  case: afterfail|<fail mode>
+func c13AfterFailure(o *common.Out, id string, mode string) {
+	abstract := "afterfail|" + mode
+	o.Begin(id, abstract)
+	o.Count("mapping-after-a-failed-call")
+	uid := atomic.AddInt64(&c13xSeq, 1)
+	addr := func(i int) string { return fmt.Sprintf("c13f-%d-s%d", uid, i) }
+	var addrs []string
+	for i := 0; i <= 5; i++ {
+		registerFake(addr(i), &fakeServer{id: i, fixed: fmt.Sprintf("ok%d", 100+i)})
+		addrs = append(addrs, addr(i))
+	}
+	defer func() {
+		for _, a := range addrs {
+			unregisterFake(a)
+		}
+	}()
+	pairsOf := func(ids ...int) []*client.KVPair {
+		var ps []*client.KVPair
+		for _, i := range ids {
+			ps = append(ps, &client.KVPair{Key: "vsrv@" + addr(i)})
+		}
+		return ps
+	}
+	d, _ := client.NewMultipleServersDiscovery(pairsOf(1, 2, 3, 4, 5))
+	opt := client.DefaultOption
+	opt.SerializeType = protocol.JSON
+	opt.Heartbeat = false
+	opt.Retries = 2
+	fm := client.Failtry
+	if mode == "failover" {
+		fm = client.Failover
+	}
+	xc := client.NewXClient("Svc", fm, client.ConsistentHash, d, opt)
+	defer xc.Close()
+	call := func(k int) (int, error) {
+		var rep int
+		ctx, cancel := context.WithTimeout(context.Background(), 5*time.Second)
+		defer cancel()
+		err := xc.Call(ctx, "M", c13KeyArg{fmt.Sprintf("key-%d", k*7919)}, &rep)
+		return rep, err
+	}
+	// the set grows by a server whose name sorts before the others; wait until some key is served by it
+	d.Update(pairsOf(0, 1, 2, 3, 4, 5))
+	deadline := time.Now().Add(4 * time.Second)
+	for seen := false; !seen; {
+		for k := 1000; k < 1200 && !seen; k++ {
+			rep, _ := call(k)
+			seen = rep == 100
+		}
+		if !seen && time.Now().After(deadline) {
+			o.ImplOnly(id, abstract, false) // the update was never seen applied: nothing to compare
+			return
+		}
+	}
+	const nk = 120
+	before := make([]int, nk)
+	for k := 0; k < nk; k++ {
+		rep, err := call(k)
+		if err != nil {
+			o.Fail(id, "rig", "a call failed while every server was up: "+err.Error(), abstract)
+			return
+		}
+		before[k] = rep
+	}
+	// server 3 goes down: its connections drop, new ones are refused
+	unregisterFake(addr(3))
+	failed := 0
+	for k := 0; k < nk; k++ {
+		if before[k] == 103 && failed < 3 {
+			if _, err := call(k); err != nil {
+				failed++
+			}
+		}
+	}
+	moved, example := 0, ""
+	for k := 0; k < nk; k++ {
+		if before[k] == 103 {
+			continue
+		}
+		rep, err := call(k)
+		if err != nil || rep != before[k] {
+			moved++
+			if example == "" {
+				example = fmt.Sprintf("key %d was served by server %d, now by %d (%v)", k, before[k]-100, rep-100, err)
+			}
+		}
+	}
+	if moved > 0 {
+		o.Fail(id, "mapping-moved", fmt.Sprintf("after %d calls that failed on a dead server (%s), %d of the keys of the other servers changed their server although the set never changed: %s", failed, mode, moved, example), abstract)
+	}
+	o.ImplOnly(id, abstract, failed > 0)
+}
+
 func runC13(r *common.Rand, tier string, o *common.Out, replay string) {
+	if strings.HasPrefix(replay, "afterfail|") {
+		c13AfterFailure(o, "replay", strings.TrimPrefix(replay, "afterfail|"))
+		return
+	}
+	if replay == "" {
+		c13AfterFailure(o, "af0", "failtry")
+		c13AfterFailure(o, "af1", "failover")
+	}
 	if strings.HasPrefix(replay, "busy|") {
 		p := strings.Split(replay, "|")
 		a, _ := strconv.Atoi(p[1])
